@@ -160,32 +160,41 @@ def precedence(chk, sf, dprog, cfg):
     chk.rule("R3.3", "variant index precedence: #[codec(index = N)] > explicit discriminant > position, in both crates; the derive emits "
              "`.index(<that> as ::core::primitive::u8)`")
     b = dprog.body(dprog.fn("utils::variant_index"))
-    rt = b.return_term()
-    V, I = ("arg", 1, b.names.get(1)), ("arg", 2, b.names.get(2))
-    ok = False
-    detail = path_str(rt)[:200]
-    if is_call(rt, "core::option::Option::unwrap_or_else", nargs=2) and is_call(rt[2][0], "core::option::Option::map", nargs=2):
-        first = rt[2][0][2][0]
-        first_ok = is_call(first, cd.D + "utils::maybe_index", nargs=1) and unref(first[2][0]) == V
-        f0, _ = mir.closure_of(rt[2][0][2][1])
-        f1, ups1 = mir.closure_of(rt[2][1])
-        b1 = dprog.body(f1) if f1 else None
-        second_ok = third_ok = False
-        if b1 is not None:
-            r1 = b1.return_term()
-            if is_call(r1, "core::option::Option::unwrap_or_else", nargs=2) and is_call(r1[2][0], "core::option::Option::map", nargs=2):
-                disc = r1[2][0][2][0]
-                ap = paths.access_path(b1, disc)
-                # upvar 0 is v
-                vi = [i for i, u in enumerate(ups1) if unref(u) == V]
-                second_ok = ap is not None and vi and ap[1] == ".%d.discriminant" % vi[0]
-                g1, ups11 = mir.closure_of(r1[2][1])
-                ii = [i for i, u in enumerate(ups1) if unref(u) == I]
-                if g1 and ii and len(ups11) == 1:
-                    u = paths.access_path(b1, ups11[0])
-                    third_ok = u is not None and u[1] == ".%d" % ii[0]
-        ok = first_ok and second_ok and third_ok
-        detail = "codec(index) first: %s; then discriminant: %s; then position: %s" % (first_ok, second_ok, third_ok)
+    # abstract interpretation of variant_index over the four scenarios (index attribute present?, explicit discriminant?):
+    # which value is tokenised into the result must be IDX, else the discriminant EXPR, else the position `i`
+    from ..lib import absint
+    table = {}
+    ok = True
+    detail = ""
+    for has_idx in (True, False):
+        for has_disc in (True, False):
+            log = []
+
+            def h(name, args, t, has_idx=has_idx, has_disc=has_disc, log=log):
+                decl = mir.strip_generics(t.get("callee") or "")
+                if name.endswith("utils::maybe_index"):
+                    return absint.some(absint.Sym("IDX")) if has_idx else absint.NONE
+                if name.endswith("Option::as_ref") and args and isinstance(args[0], absint.Sym) and args[0].name.endswith("discriminant"):
+                    return absint.some(("tuple", [absint.Sym("eq"), absint.Sym("EXPR")])) if has_disc else absint.NONE
+                if decl == "quote::to_tokens::ToTokens::to_tokens" or name.endswith("ToTokens::to_tokens"):
+                    log.append(args[0])
+                    return ("tuple", [])
+                if "TokenStream" in name and name.endswith("::new"):
+                    return absint.Sym("ts")
+                if "quote::__private::" in name or name.startswith("quote::"):
+                    return ("tuple", [])
+                return None
+            try:
+                absint.run(b, 0, {1: absint.Sym("v"), 2: absint.Sym("i")}, call=h, prog=dprog)
+                table[(has_idx, has_disc)] = [getattr(x, "name", repr(x)) for x in log]
+            except absint.Unrecognised as e:
+                ok = False
+                detail = "cannot interpret variant_index: %s" % e
+    if ok:
+        want = {(True, True): ["IDX"], (True, False): ["IDX"], (False, True): ["EXPR"], (False, False): ["i"]}
+        ok = table == want
+        detail = "emitted index per scenario (codec index?, discriminant?): %s; required: %s" % (
+            {"%s/%s" % k: v for k, v in table.items()}, {"%s/%s" % k: v for k, v in want.items()})
     chk.expect(ok, "R3.3", "scale-info-derive:variant_index-chain", b.where(), detail, cfg)
     # maybe_index looks for NameValue `index` under codec
     rec = cd.recognisers(dprog).get(cd.D + "utils::maybe_index")
